@@ -22,12 +22,11 @@ package proxy
 //@   props C05 C01
 //@   ensures result != nil && fresh(result) && result.wf() && result.size == 0
 //@   ensures len(result.entries) == max(capacity, 1)
-//@   requires capacity <= MaxAlloc
 //@   assigns nothing
 
 //@ contract (*proxyIDRingBuffer).ensureCapacity
 //@   props C05 C01
-//@   requires b.wf() && (b.size == len(b.entries) ==> 2 * len(b.entries) <= MaxAlloc)
+//@   requires b.wf()
 //@   ensures  @wf: b.wf() && b.size < len(b.entries)
 //@   ensures  @scalars: b.size == old(b.size) && b.startProxyID == old(b.startProxyID) && b.maxSize == old(b.maxSize)
 //@   ensures  @view: forall j int :: 0 <= j && j < b.size ==> b.at(j) == old(b.at(j))
@@ -43,8 +42,6 @@ package proxy
 //@   props C05 C01
 //@   requires b.wf() && 1 <= proxyID && proxyID < MaxID
 //@   requires b.size > 0 ==> proxyID >= b.startProxyID + int64(b.size)
-//@   requires b.size > 0 ==> 4 * (proxyID - b.startProxyID + 2) <= MaxAlloc
-//@   requires 4 * len(b.entries) <= MaxAlloc
 //@   ensures  @wf: b.wf()
 //@   ensures  @first: old(b.size) == 0 ==> b.startProxyID == proxyID && b.size == 1
 //@   ensures  @size: old(b.size) > 0 ==> b.startProxyID == old(b.startProxyID) && int64(b.size) == proxyID - old(b.startProxyID) + 1
@@ -54,7 +51,6 @@ package proxy
 //@   assigns  b.entries, b.head, b.size, b.maxSize, b.startProxyID, elems(b.entries)
 //@   loop 1 invariant b.wf() && b.startProxyID == old(b.startProxyID) && old(b.size) <= b.size
 //@   loop 1 invariant expected == b.startProxyID + int64(b.size) && expected <= proxyID
-//@   loop 1 invariant len(b.entries) <= old(len(b.entries)) || len(b.entries) <= 2 * b.size
 //@   loop 1 invariant b.entries == old(b.entries) || fresh(b.entries)
 //@   loop 1 invariant forall j int :: 0 <= j && j < old(b.size) ==> b.at(j) == old(b.at(j))
 //@   loop 1 invariant forall j int :: old(b.size) <= j && j < b.size ==> hole(b.at(j)) && b.at(j).sourceTask == 0
@@ -328,3 +324,179 @@ package proxy
 //@              auth.allowedIn(s.namespaceAccess, newNamespaceList[k].NamespaceInfo.Name)
 //@   loop 1 invariant forall k int :: { response.Namespaces[k] } 0 <= k && k < len(response.Namespaces) ==> response.Namespaces[k] != nil && response.Namespaces[k].NamespaceInfo != nil
 //@   loop 1 invariant response != nil && s.namespaceAccess != nil && fresh(newNamespaceList)
+
+// ---------------------------------------------------------------------------------------------
+// C02 (sender side) / C01 (ring hand-off): id rewrite into the proxy id space on one target stream.
+// Ghost history of the stream: lastTask = last task id sent, lastHigh = largest exclusive high watermark sent.
+// ---------------------------------------------------------------------------------------------
+
+//@ ghost proxyStreamSender.lastTask int64
+//@ ghost proxyStreamSender.lastHigh int64
+//@ func msgsOf(r *adminservice.StreamWorkflowReplicationMessagesResponse) *replicationv1.WorkflowReplicationMessages =
+//@     cast(r.Attributes, "*adminservice.StreamWorkflowReplicationMessagesResponse_Messages").Messages
+
+// State guarded by the sender's mutex. Only sendReplicationMessages allocates ids (rely: the counter and the ring
+// pointer are stable while the lock is free; the acknowledgement side may only discard from the front, which keeps
+// the end of the ring at nextProxyTaskID+1). A-mem: ids stay below 2^61.
+//@ guards proxyStreamSender.mu: nextProxyTaskID, idRing, *idRing, prevAckBySource, *prevAckBySource, lastMsgSendTime, lastSentWatermark
+//@   lockinv self.idRing != nil && self.idRing.wf() && self.nextProxyTaskID >= 0 &&
+//@           (self.idRing.size > 0 ==> self.idRing.startProxyID + int64(self.idRing.size) == self.nextProxyTaskID + 1) &&
+//@           self.lastSentWatermark <= self.nextProxyTaskID + 1
+//@   rely self.nextProxyTaskID == old(self.nextProxyTaskID) && self.idRing == old(self.idRing) && self.nextProxyTaskID < 2305843009213693952 && self.prevAckBySource == old(self.prevAckBySource)
+
+//@ extern quiet (channel.ShutdownOnce).IsShutdown
+//@ extern quiet (channel.ShutdownOnce).Channel
+//@ extern quiet (*time.Ticker).Stop
+//@ extern time.NewTicker(d)
+//@   ensures result != nil
+//@   assigns nothing
+//@ extern quiet (*proxyStreamSender).buildSenderDebugSnapshot
+
+// Emit-precondition of every message put on the target stream (taken from the property statement): task ids
+// strictly increase and continue after the last id sent; a task-bearing message carries an exclusive high
+// watermark above its last id and above every earlier watermark.
+//@ extern (adminservice.AdminService_StreamWorkflowReplicationMessagesServer).Send@(*proxyStreamSender).sendReplicationMessages(stream, m)
+//@   requires @ids_increase: msgsOf(m) != nil ==> forall k int :: { msgsOf(m).ReplicationTasks[k] } 0 <= k && k < len(msgsOf(m).ReplicationTasks) ==>
+//@              msgsOf(m).ReplicationTasks[k] != nil && msgsOf(m).ReplicationTasks[k].SourceTaskId > ite(k == 0, s.lastTask, msgsOf(m).ReplicationTasks[k - 1].SourceTaskId)
+//@   requires @high_above: msgsOf(m) != nil && len(msgsOf(m).ReplicationTasks) > 0 ==>
+//@              msgsOf(m).ExclusiveHighWatermark > msgsOf(m).ReplicationTasks[len(msgsOf(m).ReplicationTasks) - 1].SourceTaskId && msgsOf(m).ExclusiveHighWatermark > s.lastHigh
+//@   ensures s.lastTask == ite(len(msgsOf(m).ReplicationTasks) > 0, msgsOf(m).ReplicationTasks[len(msgsOf(m).ReplicationTasks) - 1].SourceTaskId, old(s.lastTask))
+//@   ensures s.lastHigh == max(old(s.lastHigh), msgsOf(m).ExclusiveHighWatermark)
+//@   assigns s.lastTask, s.lastHigh
+
+// Messages on the sender's queue: a response object with distinct, non-nil task objects (A-temporal: a batch
+// never contains the same task object twice) and a non-zero source shard.
+//@ chaninv RoutedMessage v: v.Resp != nil && !(v.SourceShard.ClusterID == 0 && v.SourceShard.ShardID == 0) &&
+//@        (msgsOf(v.Resp) != nil ==> (forall k int :: { msgsOf(v.Resp).ReplicationTasks[k] } 0 <= k && k < len(msgsOf(v.Resp).ReplicationTasks) ==> msgsOf(v.Resp).ReplicationTasks[k] != nil) &&
+//@           (forall a int, c int :: 0 <= a && a < c && c < len(msgsOf(v.Resp).ReplicationTasks) ==> msgsOf(v.Resp).ReplicationTasks[a] != msgsOf(v.Resp).ReplicationTasks[c]))
+
+//@ contract (*proxyStreamSender).sendReplicationMessages
+//@   props C02 C01
+//@   requires s.lastTask >= 0 && s.lastHigh >= 0 && s.lastTask <= s.nextProxyTaskID && s.lastHigh <= s.nextProxyTaskID + 1
+//@   loop 1 invariant s.lastTask >= 0 && s.lastHigh >= 0 && s.lastTask <= s.nextProxyTaskID && s.lastHigh <= s.nextProxyTaskID + 1
+//@   loop 3 invariant s.idRing != nil && s.idRing.wf() && s.nextProxyTaskID == entry(s.nextProxyTaskID) + int64($i)
+//@   loop 3 invariant s.idRing.size > 0 ==> s.idRing.startProxyID + int64(s.idRing.size) == s.nextProxyTaskID + 1
+//@   loop 3 invariant forall k int :: { m.Messages.ReplicationTasks[k] } 0 <= k && k < $i ==> m.Messages.ReplicationTasks[k].SourceTaskId == entry(s.nextProxyTaskID) + int64(k) + 1
+//@   loop 3 invariant (cap(originalIDs) == 0 || newSince(originalIDs)) && (cap(proxyIDs) == 0 || newSince(proxyIDs))
+
+// ---------------------------------------------------------------------------------------------
+// C03 (safety) and C01 (G3): acknowledgements the routing receiver sends to its source shard.
+// Ghost history: lastSent = last inclusive low watermark sent on this source stream.
+// handed(r, T, id): the receiver has handed a task with original id `id` to target shard T (grows only).
+// ---------------------------------------------------------------------------------------------
+
+//@ ghost proxyStreamReceiver.lastSent int64
+//@ ufunc handed(r *proxyStreamReceiver, t history.ClusterShardID, id int64) bool
+//@ func ackOf(q *adminservice.StreamWorkflowReplicationMessagesRequest) int64 =
+//@     cast(q.Attributes, "*adminservice.StreamWorkflowReplicationMessagesRequest_SyncReplicationState").SyncReplicationState.InclusiveLowWatermark
+
+// State guarded by ackMu. rely: the source's exclusive high watermark never decreases (A-temporal); the last sent
+// acknowledgement object is replaced only by sendAck itself. A-inc (one incarnation, the "no stream failures" part
+// of C01-C03): acknowledgements are processed only after a batch of this incarnation was received.
+//@ guards proxyStreamReceiver.ackMu: lastExclusiveHighOriginal, lastAckSendTime, lastSentAck, *ackByTarget
+//@   rely self.lastExclusiveHighOriginal >= old(self.lastExclusiveHighOriginal) && self.lastExclusiveHighOriginal > 0 && self.lastSentAck == old(self.lastSentAck)
+//@   rely forall t history.ClusterShardID :: { t in self.ackByTarget } old(t in self.ackByTarget) ==> t in self.ackByTarget
+
+//@ extern quiet (*proxyStreamReceiver).buildReceiverDebugSnapshot
+
+// Every acknowledgement put on the source stream (aggregated or keep-alive).
+//@ extern (adminservice.AdminService_StreamWorkflowReplicationMessagesClient).Send@(*proxyStreamReceiver).sendAck(stream, q)
+//@   requires @monotone: ackOf(q) >= r.lastSent
+//@   ensures r.lastSent == ackOf(q)
+//@   assigns r.lastSent
+
+//@ contract (*proxyStreamReceiver).sendAck
+//@   props C03 C01
+//@   requires r.ackByTarget != nil && r.lastSentMin == r.lastSent && (r.lastSentAck != nil ==> ackOf(r.lastSentAck) == r.lastSent)
+//@   requires r.lastSentMin <= 0 || r.lastSentMin <= r.lastExclusiveHighOriginal
+//@   callpre Send.1: @bounded: lastExclusiveHighOriginal > 0 ==> ackOf($0) <= lastExclusiveHighOriginal
+//@   callpre Send.1: @min_over_reported_targets: forall t history.ClusterShardID :: { t in r.ackByTarget } t in r.ackByTarget ==> ackOf($0) <= r.ackByTarget[t]
+//@   loop 1 invariant r.ackByTarget != nil && r.lastSentMin == r.lastSent && (r.lastSentAck != nil ==> ackOf(r.lastSentAck) == r.lastSent)
+//@   loop 1 invariant r.lastSentMin <= 0 || r.lastSentMin <= r.lastExclusiveHighOriginal
+//@   loop 2 invariant first <==> $n == 0
+//@   loop 2 invariant !first ==> (forall t history.ClusterShardID :: { t in $seen } t in $seen ==> min <= r.ackByTarget[t])
+
+// ---------------------------------------------------------------------------------------------
+// C01 (G2): un-mapping an acknowledgement of the target stream back to the source shards.
+// ---------------------------------------------------------------------------------------------
+
+//@ extern quiet (adminservice.AdminService_StreamWorkflowReplicationMessagesServer).Recv
+//@ extern quiet (*proxyStreamSender).buildSenderDebugSnapshot
+//@ extern (ShardManager).DeliverAckToShardOwner@(*proxyStreamSender).recvAck
+//@   trusted hands the acknowledgement to the receiver of the source shard (contract of the shard manager, see C09)
+//@   assigns nothing
+
+// Whenever an acknowledgement is forwarded for source shard S at target watermark w, its value is the per-source
+// maximum the ring reports for S at w (first loop) or the value forwarded last time for S (fallback loop, which is
+// taken only when the ring has nothing at or below w); entries are discarded only after the forwarding loops, and
+// exactly as many as the aggregation covered.
+//@ contract (*proxyStreamSender).recvAck
+//@   props C01
+//@   requires s.prevAckBySource != nil && !fresh(s.prevAckBySource)
+//@   callpre DeliverAckToShardOwner.1: @forwards_aggregate: $0 in shardToAck && ackOf($1.Req) == shardToAck[$0] && $4 == shardToAck[$0]
+//@   callpre DeliverAckToShardOwner.2: @fallback_only_when_empty: len(shardToAck) == 0 && $0 in pendingPrev && ackOf($1.Req) == pendingPrev[$0]
+//@   callpre AggregateUpTo: @at_received_watermark: $watermark == proxyAckWatermark
+//@   callpre Discard: @count_from_aggregation: $count == pendingDiscard
+//@   arith wrap
+//@   loop 1 invariant s.prevAckBySource != nil && !fresh(s.prevAckBySource)
+//@   loop 2 invariant shardToAck != nil && sent != nil && s.prevAckBySource != nil && !fresh(s.prevAckBySource) && sent != shardToAck && fresh(shardToAck) && fresh(sent)
+//@   loop 3 invariant shardToAck != nil && sent != nil && s.prevAckBySource != nil && !fresh(s.prevAckBySource) && sent != shardToAck && fresh(shardToAck) && fresh(sent)
+//@   loop 4 invariant pendingPrev != nil && fresh(pendingPrev) && s.prevAckBySource != nil
+//@   loop 5 invariant pendingPrev != nil && sent != nil && sent != pendingPrev && len(shardToAck) == 0
+//@   loop 6 invariant pendingPrev != nil && sent != nil && sent != pendingPrev && len(shardToAck) == 0
+
+// ---------------------------------------------------------------------------------------------
+// C02 (receiver side): grouping by owning target shard and hand-off.
+// ---------------------------------------------------------------------------------------------
+
+//@ extern pure servercommon.WorkflowIDToHistoryShard
+//@   trusted go.temporal.io/server/common: farm-hash of (namespace id, workflow id) modulo the shard count, plus one (uninterpreted)
+//@ extern (adminservice.AdminService_StreamWorkflowReplicationMessagesClient).Recv@(*proxyStreamReceiver).recvReplicationMessages
+//@   trusted A-temporal: a replication batch holds non-nil task objects whose ids are below 2^62
+//@   ensures result0 != nil && msgsOf(result0) != nil ==> forall k int :: { msgsOf(result0).ReplicationTasks[k] } 0 <= k && k < len(msgsOf(result0).ReplicationTasks) ==>
+//@              msgsOf(result0).ReplicationTasks[k] != nil && (msgsOf(result0).ReplicationTasks[k].RawTaskInfo != nil ==> msgsOf(result0).ReplicationTasks[k].RawTaskInfo.TaskId < MaxID && msgsOf(result0).ReplicationTasks[k].RawTaskInfo.TaskId > MinInt64)
+//@   assigns nothing
+//@ extern quiet (ShardManager).GetRemoteSendChansByCluster
+//@ extern quiet (ShardManager).GetRemoteShardsForPeer
+//@ extern proto.Clone@(*proxyStreamReceiver).recvReplicationMessages(m)
+//@   trusted google.golang.org/protobuf: deep copy of the watermark-only message (same type, same watermark, no tasks)
+//@   ensures result != nil && fresh(result) && sametype(result, m)
+//@   ensures msgsOf(cast(result, "*adminservice.StreamWorkflowReplicationMessagesResponse")) != nil && len(msgsOf(cast(result, "*adminservice.StreamWorkflowReplicationMessagesResponse")).ReplicationTasks) == 0
+//@   assigns nothing
+//@ extern (ShardManager).DeliverMessagesToShardOwner@(*proxyStreamReceiver).recvReplicationMessages
+//@   trusted enqueues the message on the stream of the given target shard or reports failure (contract of the shard manager, see C09)
+//@   assigns nothing
+
+// ownedBy(t, K): K is the shard of the target cluster that owns task t's workflow under the target's shard count
+//@ pred ownedBy(r *proxyStreamReceiver, t *replicationv1.ReplicationTask, k history.ClusterShardID) = t != nil && t.RawTaskInfo != nil &&
+//@     k.ClusterID == r.targetShardID.ClusterID &&
+//@     k.ShardID == servercommon.WorkflowIDToHistoryShard(t.RawTaskInfo.NamespaceId, t.RawTaskInfo.WorkflowId, r.localShardCount) &&
+//@     t.RawTaskInfo.TaskId < MaxID && t.RawTaskInfo.TaskId > MinInt64
+// grouped(r, g): every group is non-empty, lives in its own backing array allocated by this call, and holds only tasks owned by its key
+//@ pred grouped(r *proxyStreamReceiver, g map[history.ClusterShardID][]*replicationv1.ReplicationTask) =
+//@     (forall k history.ClusterShardID :: { k in g } k in g ==> len(g[k]) >= 1 && fresh(g[k]) &&
+//@         (forall j int :: { g[k][j] } 0 <= j && j < len(g[k]) ==> ownedBy(r, g[k][j], k))) &&
+//@     (forall a history.ClusterShardID, b history.ClusterShardID :: { a in g, b in g } a in g && b in g && a != b ==> base(g[a]) != base(g[b]))
+
+// Whenever a task message is handed to the shard manager: it goes to the key of its group, carries exactly that
+// group's tasks (every one owned by that shard), an exclusive high watermark of last id + 1 and the batch priority.
+//@ contract (*proxyStreamReceiver).recvReplicationMessages
+//@   props C02 C01
+//@   arith wrap
+//@   requires !(r.sourceShardID.ClusterID == 0 && r.sourceShardID.ShardID == 0) && r.ackByTarget != nil && !fresh(r.ackByTarget)
+//@   callpre DeliverMessagesToShardOwner.2: @to_owner: $0 == targetShardID && targetShardID in tasksByTargetShard &&
+//@        msgsOf($1.Resp).ReplicationTasks == tasksByTargetShard[targetShardID] &&
+//@        (forall j int :: { tasksByTargetShard[targetShardID][j] } 0 <= j && j < len(tasksByTargetShard[targetShardID]) ==> ownedBy(r, tasksByTargetShard[targetShardID][j], targetShardID))
+//@   writepre lastWatermark: @only_from_watermark_only_batch: len(attr.Messages.ReplicationTasks) == 0 && $value.ExclusiveHighWatermark == attr.Messages.ExclusiveHighWatermark
+//@   callpre DeliverMessagesToShardOwner.2: @registered_before_handoff: targetShardID in r.ackByTarget
+//@   callpre DeliverMessagesToShardOwner.2: @watermark: msgsOf($1.Resp).ExclusiveHighWatermark == tasks[len(tasks) - 1].RawTaskInfo.TaskId + 1 &&
+//@        msgsOf($1.Resp).Priority == attr.Messages.Priority && $1.SourceShard == r.sourceShardID
+//@   loop 2 modifies fresh []*replicationv1.ReplicationTask
+//@   loop 2 invariant @map: tasksByTargetShard != nil && fresh(tasksByTargetShard)
+//@   loop 2 invariant @nonempty: forall k history.ClusterShardID :: { k in tasksByTargetShard } k in tasksByTargetShard ==> len(tasksByTargetShard[k]) >= 1 && fresh(tasksByTargetShard[k]) && allocated(tasksByTargetShard[k])
+//@   loop 2 invariant @owned: forall k history.ClusterShardID, j int :: { tasksByTargetShard[k][j] } k in tasksByTargetShard && 0 <= j && j < len(tasksByTargetShard[k]) ==> ownedBy(r, tasksByTargetShard[k][j], k)
+//@   loop 2 invariant @distinct: forall a history.ClusterShardID, b history.ClusterShardID :: { a in tasksByTargetShard, b in tasksByTargetShard } a in tasksByTargetShard && b in tasksByTargetShard && a != b ==> base(tasksByTargetShard[a]) != base(tasksByTargetShard[b])
+//@   loop 2 invariant forall k history.ClusterShardID :: { k in tasksByTargetShard } k in tasksByTargetShard ==> newSince(tasksByTargetShard[k])
+//@   loop 2 invariant cap(ids) == 0 || newSince(ids) || true
+//@   loop 7 invariant tasksByTargetShard != nil && fresh(tasksByTargetShard) && grouped(r, tasksByTargetShard) && sentByTarget != nil && sentByTarget != tasksByTargetShard
+//@   loop 8 invariant tasksByTargetShard != nil && fresh(tasksByTargetShard) && grouped(r, tasksByTargetShard) && sentByTarget != nil && sentByTarget != tasksByTargetShard
